@@ -301,6 +301,138 @@ theorem query_posting_model (cfg : BalCfg) (cur : String → Bool) (valuation : 
     simp only [hf', Bool.false_eq_true, if_false]
     exact ⟨st, rfl, hst, by simp⟩
 
+/-! ### the query stage on a whole day -/
+
+open Knut.FactsAgree.TransProcess (Proc processDay AllRel PRel TRel)
+
+/-- the processor that `Query{…}.Into(report)` returns: its one closure, `Posting` (which leaves the posting alone), in the shape
+`processDay` expects -/
+def queryCb (st : journal.Query.Into.State) (t : transaction.Transaction) (p : posting.Posting) :
+    GoSem.Outcome (journal.Query.Into.State × posting.Posting × Option Error) :=
+  (journal.Query.Into.Posting st t p).bind fun r => GoSem.Outcome.ok (r.1, p, r.2)
+
+def queryProc : Proc journal.Query.Into.State := { Posting := some queryCb }
+
+theorem queryCb_ok {st st1 : journal.Query.Into.State} {t : transaction.Transaction} {p : posting.Posting} {e : Option Error}
+    (h : journal.Query.Into.Posting st t p = GoSem.Outcome.ok (st1, e)) : queryCb st t p = GoSem.Outcome.ok (st1, p, e) := by
+  unfold queryCb; rw [h]; rfl
+
+/-- the conclusion of `query_posting_model` about a query `q` -/
+def PostingOK (cfg : BalCfg) (cur : String → Bool) (q : journal.Query) : Prop :=
+  ∀ (st : journal.Query.Into.State), st.query = q →
+    ∀ (tg : transaction.Transaction) (t : Knut.Transaction) (src : Ref) (p : Knut.Posting),
+      tg.Date = t.date → p.account.wf = true →
+      ∃ st', journal.Query.Into.Posting st tg (postingGo cur src p) = GoSem.Outcome.ok (st', none) ∧ st'.query = st.query ∧
+        st'.c.filterMap entryOf = st.c.filterMap entryOf ++ (Balance.queryPosting cfg t p).toList
+
+theorem forEachE_cons_ok {σ α : Type} (f : σ → α → GoSem.Outcome (σ × α × Option Error)) (st st1 : σ) (x x' : α) (rest done : List α)
+    (h : f st x = GoSem.Outcome.ok (st1, x', none)) :
+    TransProcess.forEachE f st (x :: rest) done = TransProcess.forEachE f st1 rest (done ++ [x']) := by
+  simp only [TransProcess.forEachE, h, GoSem.Outcome.bind, Option.isSome_none, Bool.false_eq_true, if_false]
+
+theorem forEachIn_cons_ok {σ α β : Type} (f : σ → β → α → GoSem.Outcome (σ × α × Option Error)) (ctx : List α → β) (st st1 : σ)
+    (x x' : α) (rest done : List α) (h : f st (ctx (done ++ x :: rest)) x = GoSem.Outcome.ok (st1, x', none)) :
+    TransProcess.forEachIn f ctx st (x :: rest) done = TransProcess.forEachIn f ctx st1 rest (done ++ [x']) := by
+  simp only [TransProcess.forEachIn, h, GoSem.Outcome.bind, Option.isSome_none, Bool.false_eq_true, if_false]
+
+theorem postingsOf_ok {σ : Type} (fp : σ → transaction.Transaction → posting.Posting → GoSem.Outcome (σ × posting.Posting × Option Error))
+    (st st1 : σ) (g : transaction.Transaction)
+    (h : TransProcess.forEachIn fp (fun ps => { g with Postings := ps }) st g.Postings [] = GoSem.Outcome.ok (st1, g.Postings, none)) :
+    TransProcess.postingsOf fp st g = GoSem.Outcome.ok (st1, g, none) := by
+  unfold TransProcess.postingsOf
+  rw [h]; rfl
+
+theorem postings_loop {cfg : BalCfg} {cur : String → Bool} {q : journal.Query} (hq : PostingOK cfg cur q)
+    (t : Knut.Transaction) (ctx : List posting.Posting → transaction.Transaction) (hctx : ∀ l, (ctx l).Date = t.date) :
+    ∀ (mps : List Knut.Posting) (ps done : List posting.Posting) (st : journal.Query.Into.State),
+      AllRel (PRel cur) ps mps → (∀ p ∈ mps, p.account.wf = true) → st.query = q →
+      ∃ st', TransProcess.forEachIn queryCb ctx st ps done = GoSem.Outcome.ok (st', done ++ ps, none) ∧ st'.query = q ∧
+        st'.c.filterMap entryOf = st.c.filterMap entryOf ++ mps.filterMap (Balance.queryPosting cfg t) := by
+  intro mps
+  induction mps with
+  | nil =>
+    intro ps done st hrel _ hst
+    cases hrel
+    exact ⟨st, by simp [TransProcess.forEachIn], hst, by simp⟩
+  | cons mp mrest ih =>
+    intro ps done st hrel hwf hst
+    cases hrel with
+    | cons hp hrest =>
+      rename_i g grest
+      obtain ⟨st1, h1, hq1, hc1⟩ := hq st hst (ctx (done ++ g :: grest)) t g.Src mp (hctx _) (hwf mp (by simp))
+      obtain ⟨st2, h2, hq2, hc2⟩ := ih grest (done ++ [g]) st1 hrest (fun p hp => hwf p (by simp [hp])) (hq1.trans hst)
+      refine ⟨st2, ?_, hq2, ?_⟩
+      · have hg : g = postingGo cur g.Src mp := hp
+        rw [← hg] at h1
+        rw [forEachIn_cons_ok _ _ _ _ _ _ _ _ (queryCb_ok h1), h2]
+        simp
+      · rw [hc2, hc1]
+        simp only [List.filterMap_cons, List.append_assoc]
+        cases Balance.queryPosting cfg t mp <;> simp
+
+theorem txs_loop {cfg : BalCfg} {cur : String → Bool} {q : journal.Query} (hq : PostingOK cfg cur q) :
+    ∀ (txs : List Knut.Transaction) (gs done : List transaction.Transaction) (st : journal.Query.Into.State),
+      AllRel (TRel cur) gs txs → (∀ t ∈ txs, ∀ p ∈ t.postings, p.account.wf = true) → st.query = q →
+      ∃ st', TransProcess.forEachE (TransProcess.postingsOf queryCb) st gs done =
+          GoSem.Outcome.ok (st', done ++ gs, none) ∧ st'.query = q ∧
+        st'.c.filterMap entryOf = st.c.filterMap entryOf ++ txs.flatMap (Balance.queryTx cfg) := by
+  intro txs
+  induction txs with
+  | nil =>
+    intro gs done st hrel _ hst
+    cases hrel
+    exact ⟨st, by simp [TransProcess.forEachE], hst, by simp⟩
+  | cons t trest ih =>
+    intro gs done st hrel hwf hst
+    cases hrel with
+    | cons ht hrest =>
+      rename_i g grest
+      obtain ⟨hdate, _, hps, _⟩ := ht
+      obtain ⟨st1, h1, hq1, hc1⟩ := postings_loop hq t (fun ps => { g with Postings := ps }) (fun _ => hdate) t.postings g.Postings []
+        st hps (hwf t (by simp)) hst
+      obtain ⟨st2, h2, hq2, hc2⟩ := ih grest (done ++ [g]) st1 hrest (fun t' ht' => hwf t' (by simp [ht'])) hq1
+      refine ⟨st2, ?_, hq2, ?_⟩
+      · rw [forEachE_cons_ok _ _ _ _ _ _ _ (postingsOf_ok _ _ _ _ (by simpa using h1)), h2]
+        simp
+      · rw [hc2, hc1]
+        simp [Balance.queryTx, List.flatMap_cons]
+
+/-- **the query stage of `knut balance` on one day** = the last line of `Balance.day`: `Processor.Process` with the processor of
+`Query{…}.Into(report)` (for the query that `execute` builds) leaves the day as it is, and the entries that `Report.Insert` keeps of
+the log grow by `txs.flatMap (Balance.queryTx cfg)` for the model transactions `txs` the day's transactions stand for -/
+theorem query_day_model {cfg : BalCfg} {cur : String → Bool} {q : journal.Query} (hq : PostingOK cfg cur q)
+    (st : journal.Query.Into.State) (hst : st.query = q) (dg : journal.Day) (txs : List Knut.Transaction)
+    (hrel : AllRel (TRel cur) dg.Transactions txs) (hwf : ∀ t ∈ txs, ∀ p ∈ t.postings, p.account.wf = true) :
+    ∃ st', processDay queryProc st dg = GoSem.Outcome.ok (st', dg, none) ∧ st'.query = q ∧
+      st'.c.filterMap entryOf = st.c.filterMap entryOf ++ txs.flatMap (Balance.queryTx cfg) := by
+  obtain ⟨st', h, hq', hc⟩ := txs_loop hq txs dg.Transactions [] st hrel hwf hst
+  refine ⟨st', ?_, hq', hc⟩
+  unfold processDay queryProc
+  simp only [TransProcess.optStep, TransProcess.pricesStep, TransProcess.opensStep, TransProcess.txStep, TransProcess.assertStep,
+    TransProcess.closeStep, TransProcess.DayStep.andThen, TransProcess.DayStep.skip, TransProcess.onTransactions, GoSem.Outcome.bind,
+    Option.isSome_none, Bool.false_eq_true, if_false, h, List.nil_append]
+
+/-- **`knut balance`, the query stage**: the query that `execute` builds, started by `Query.Into` (empty log), run by
+`Processor.Process` over a day, inserts into the report exactly the entries of `Balance.day`'s last line -/
+theorem balance_query_day (cfg : BalCfg) (cur : String → Bool) (valuation : commodity.Commodity)
+    (span : Knut.Period) (iv : Knut.Interval)
+    (remapFs : List (String → Bool)) (swap : account.Account → account.Account)
+    (m : account.Mapping) (getPath : List String → account.Account)
+    (accs : Option (List (String → Bool))) (comFs : List (String → Bool))
+    (hfl : FlagsOK cfg valuation remapFs m accs comFs)
+    (hsorted : List.Pairwise (fun p q : Knut.Period => p.stop ≤ q.stop) cfg.periods) (hstop : ∀ p ∈ cfg.periods, p.stop ≠ 0)
+    (hreg : RegistryPath getPath) (hswap : RegistrySwap swap) :
+    ∃ q, commands.balanceRunner.execute.query valuation (TransDate.partitionGo ⟨span, iv, cfg.periods⟩) (regsGo remapFs) swap m getPath
+          (accs.map regsGo) (regsGo comFs) = GoSem.Outcome.ok q ∧
+      journal.Query.Into.init q = { query := q, c := [] } ∧
+      ∀ (st : journal.Query.Into.State), st.query = q →
+      ∀ (dg : journal.Day) (txs : List Knut.Transaction), AllRel (TRel cur) dg.Transactions txs →
+        (∀ t ∈ txs, ∀ p ∈ t.postings, p.account.wf = true) →
+        ∃ st', processDay queryProc st dg = GoSem.Outcome.ok (st', dg, none) ∧ st'.query = q ∧
+          st'.c.filterMap entryOf = st.c.filterMap entryOf ++ txs.flatMap (Balance.queryTx cfg) := by
+  obtain ⟨q, hq, hinit, hpost⟩ := query_posting_model cfg cur valuation span iv remapFs swap m getPath accs comFs hfl hsorted hstop hreg hswap
+  exact ⟨q, hq, hinit, fun st hst dg txs hrel hwf => query_day_model hpost st hst dg txs hrel hwf⟩
+
 /-! ### the rest of `execute`, pinned by source text
 
 `execute` as a whole is outside the translated subset (cobra, the registry, the journal builder, the processors as values, bufio).
